@@ -309,7 +309,10 @@ fn apply_field_operations(base_expr: &TokenStream, operation: &FieldOperation) -
             quote_spanned! { *span=> #base_expr.#name }
         }
         FieldOperation::UnnamedField { index, span } => {
-            let idx = syn::Index::from(*index);
+            let idx = syn::Index {
+                index: *index as u32,
+                span: *span,
+            };
             quote_spanned! { *span=> #base_expr.#idx }
         }
         FieldOperation::Index { index, span } => {
